@@ -1,6 +1,7 @@
 package main
 
 import (
+	"go/token"
 	"regexp"
 	"go/types"
 	"strings"
@@ -49,7 +50,7 @@ func runC14(c *Ctx) {
 	// (3) exhaustiveness over the policy sum type (the anonymous interface in SpendPolicy.Type)
 	if sp := c.P.NamedType("types", "SpendPolicy"); sp != nil {
 		if st, ok := sp.Underlying().(*types.Struct); ok && st.NumFields() == 1 {
-			sumTypeSwitchesOn(c, "policy-exhaustive", st.Field(0).Type(), "SpendPolicy.Type", 5)
+			sumTypeSwitchesOn(c, "policy-exhaustive", st.Field(0).Type(), "SpendPolicy.Type", 3)
 		}
 	} else {
 		c.Undecided("policy-exhaustive", "anchor", "", "SpendPolicy does not resolve")
@@ -73,34 +74,65 @@ func c14Cursors(c *Ctx, ge *GuardEngine) {
 			continue
 		}
 		n++
-		guarded, advanced, front := false, false, false
+		// shape-independent: every access to the captured slice happens where it is known to be non-empty,
+		// reads take element 0, and every update of the captured slice is exactly s = s[1:]
+		guarded, advanced, front := true, false, false
+		fi := ge.info(an)
+		nonEmpty := func(b *ssa.BasicBlock) bool {
+			for _, cd := range ge.domConds(fi, b, nil) {
+				if !strings.HasPrefix(cd.L, "len(") {
+					continue
+				}
+				if (cd.R == "const:0" && (cd.Op == ">" || cd.Op == "!=")) || (cd.R == "const:1" && cd.Op == ">=") {
+					return true
+				}
+			}
+			return false
+		}
+		isCaptured := func(v ssa.Value) bool {
+			ld, ok := v.(*ssa.UnOp)
+			if !ok || ld.Op != token.MUL {
+				return false
+			}
+			_, isFV := ld.X.(*ssa.FreeVar)
+			return isFV
+		}
 		for _, b := range an.Blocks {
 			for _, in := range b.Instrs {
 				switch x := in.(type) {
-				case *ssa.If:
-					ge.pv.loadCtx = []ssa.Instruction{x}
-					l, op, r := ge.decompose(x.Cond, nil)
-					if strings.HasPrefix(l, "len(") && r == "const:0" && (op == ">" || op == "!=") {
-						guarded = true
-					}
-					// "ok = len(x) > 0; if ok" form
-					if strings.Contains(l, "len(") && strings.Contains(l, "> const:0") {
-						guarded = true
-					}
 				case *ssa.Slice:
-					if k, ok := x.Low.(*ssa.Const); ok && k.Value != nil && k.Value.ExactString() == "1" && x.High == nil {
-						for _, r := range *x.Referrers() {
-							if st, ok := r.(*ssa.Store); ok {
-								if _, isFV := st.Addr.(*ssa.FreeVar); isFV && onlyUnderNonEmpty(b) {
-									advanced = true
-								}
-							}
-						}
+					if !isCaptured(x.X) {
+						continue
+					}
+					k, isK := x.Low.(*ssa.Const)
+					if !(isK && k.Value != nil && k.Value.ExactString() == "1" && x.High == nil) || !nonEmpty(b) {
+						guarded = false
 					}
 				case *ssa.IndexAddr:
-					if k, ok := x.Index.(*ssa.Const); ok && k.Value != nil && k.Value.ExactString() == "0" {
-						front = true
+					if !isCaptured(x.X) {
+						continue
 					}
+					k, isK := x.Index.(*ssa.Const)
+					if isK && k.Value != nil && k.Value.ExactString() == "0" && nonEmpty(b) {
+						front = true
+					} else {
+						guarded = false
+					}
+				case *ssa.Store:
+					if _, isFV := x.Addr.(*ssa.FreeVar); !isFV {
+						continue
+					}
+					if _, isSlice := x.Val.Type().Underlying().(*types.Slice); !isSlice {
+						continue
+					}
+					sl, isSl := x.Val.(*ssa.Slice)
+					if isSl && isCaptured(sl.X) && sl.High == nil && nonEmpty(b) {
+						if k, isK := sl.Low.(*ssa.Const); isK && k.Value != nil && k.Value.ExactString() == "1" {
+							advanced = true
+							continue
+						}
+					}
+					guarded = false
 				}
 			}
 		}
